@@ -7,6 +7,7 @@ use std::mem::{size_of, align_of};
 
 verus! {
 
+//@global \bvolatile_memory::(compute_offset|compute_end_offset)\b => \1
 //@include ../common/ptr.rs
 //@include ../common/stdnum.rs
 //@include ../common/stdopt.rs
@@ -219,6 +220,13 @@ impl PtrGuardMut {
 
 //@item src/volatile_memory.rs :: - :: pub struct VolatileSlice<'a, B = \(\)> :: pubfields
 //@enditem
+
+/// `#[derive(Clone, Copy)]` of the source (attributes are dropped by the extraction): the same view again
+impl<'a, B: BitmapSlice> Clone for VolatileSlice<'a, B> {
+    fn clone(&self) -> (r: Self)
+        ensures r.addr == self.addr, r.size == self.size, shifted(&r.bitmap, &self.bitmap, 0), r.mmap == self.mmap
+    { VolatileSlice { addr: self.addr, size: self.size, bitmap: self.bitmap.clone(), mmap: self.mmap } }
+}
 
 impl<'a, B: BitmapSlice> VolatileSlice<'a, B> {
     /// representation invariant: the slice lies inside its allocation, which does not wrap
